@@ -4,7 +4,7 @@ from ..gen.checks import GenCheck, COMMON_ASSUMPTIONS
 
 ENGINE = "dgen+refsem"
 TECHNIQUE = "runtime monitoring: random well-formed designs emitted as real Transactron objects, simulated under hostile input valuations; per-cycle oracle = independent reference semantics over sampled run/data/witness signals"
-CHECK = GenCheck("C06", ("C06:",), {"p_struct": 0.45, "p_call": 0.3, "max_nesting": 3}, scheds=("eager",), nontrivial_counter="domain_cycles_conditions_hold_but_body_idle")
+CHECK = GenCheck("C06", ("C06:",), {"p_struct": 0.45, "p_call": 0.3, "max_nesting": 3, "p_nested_fsm": 0.6}, scheds=("eager",), nontrivial_counter="domain_cycles_conditions_hold_but_body_idle")
 shards, run_shard = CHECK.shards, CHECK.run_shard
 ASSUMPTIONS = COMMON_ASSUMPTIONS
 RULE = ("witness assignments in the four domains (comb, sync as a toggle register, av_comb, top_comb) placed at random positions inside bodies, nested bodies and If/Switch/FSM blocks; oracle: comb/sync effect iff all enclosing bodies run and the ordinary conditions hold, av_comb iff the ordinary conditions hold, top_comb always; non-trivial design = some cycle where the ordinary conditions held but the body did not run (where the domains differ); distinct = design shape signature")
